@@ -27,6 +27,9 @@ enum Ev {
     Connect(usize),       // inbound
     ConnectOut(usize),    // outbound (command + attempted + connected)
     Disconnect(usize),
+    /// the wire reports the end of the *other* connection of a connection crossing (link != the session's
+    /// link, reason `Conflict`): the session stays connected
+    DisconnectOtherLink(usize),
     FetchCmd(usize, usize), // (repo, peer)
     RefsAnn(usize, usize),  // (repo, announcer = deliverer)
     InvAnn(usize),
@@ -100,7 +103,7 @@ impl Env {
     fn enabled(&self, ev: &Ev) -> bool {
         match ev {
             Ev::Connect(p) | Ev::ConnectOut(p) => !self.connected[*p],
-            Ev::Disconnect(p) => self.connected[*p],
+            Ev::Disconnect(p) | Ev::DisconnectOtherLink(p) => self.connected[*p],
             Ev::FetchCmd(_, _) => true,
             Ev::RefsAnn(_, p) | Ev::InvAnn(p) => self.connected[*p],
             Ev::Deliver(k, _) => *k < self.pending().len(),
@@ -139,6 +142,10 @@ impl Env {
             Ev::Disconnect(p) => {
                 self.node.service.disconnected(self.remotes[p].nid, self.link[p], &DisconnectReason::Command);
                 self.connected[p] = false;
+            }
+            Ev::DisconnectOtherLink(p) => {
+                let other = if self.link[p] == Link::Inbound { Link::Outbound } else { Link::Inbound };
+                self.node.service.disconnected(self.remotes[p].nid, other, &DisconnectReason::Conflict);
             }
             Ev::FetchCmd(r, p) => {
                 let (tx, rx) = crossbeam_channel::unbounded();
@@ -295,6 +302,7 @@ fn alphabet(npeers: usize, nrepos: usize, reduced: bool) -> Vec<Ev> {
         if !reduced {
             a.push(Ev::ConnectOut(p));
             a.push(Ev::InvAnn(p));
+            a.push(Ev::DisconnectOtherLink(p));
         }
         for r in 0..nrepos {
             a.push(Ev::FetchCmd(r, p));
@@ -440,6 +448,7 @@ fn parse_ev(s: &str) -> Option<Ev> {
     let nums: Vec<usize> = s.split(|c: char| !c.is_ascii_digit()).filter(|x| !x.is_empty()).filter_map(|x| x.parse().ok()).collect();
     if s.starts_with("ConnectOut") { Some(Ev::ConnectOut(nums[0])) }
     else if s.starts_with("Connect") { Some(Ev::Connect(nums[0])) }
+    else if s.starts_with("DisconnectOtherLink") { Some(Ev::DisconnectOtherLink(nums[0])) }
     else if s.starts_with("Disconnect") { Some(Ev::Disconnect(nums[0])) }
     else if s.starts_with("FetchCmd") { Some(Ev::FetchCmd(nums[0], nums[1])) }
     else if s.starts_with("RefsAnn") { Some(Ev::RefsAnn(nums[0], nums[1])) }
